@@ -4,6 +4,7 @@ import (
 	"errors"
 	"fmt"
 	"os"
+	"path/filepath"
 	"sync"
 	"testing"
 	"time"
@@ -94,8 +95,10 @@ func runCancelCase(c cancelCase) *Violation {
 
 	// one attempt with a given closure plan; returns a violation or nil
 	attempt := func(desc string, ch chan struct{}, rep segment.StatsReporter, mustClose bool) (closed bool, v *Violation) {
-		path := drive.NewPath("c18")
-		defer os.Remove(path)
+		// the destination lives in a directory of its own: nothing else may appear next to it
+		dir := drive.NewDir("c18")
+		defer os.RemoveAll(dir)
+		path := filepath.Join(dir, "merged.zap")
 		var size uint64
 		err := drive.Safe(func() error {
 			var e error
@@ -111,6 +114,9 @@ func runCancelCase(c cancelCase) *Violation {
 			if serr == nil {
 				return true, violation(prop, "cancel/file-left-behind", "%s: Merge returned the closed error but left a file at the path", desc)
 			}
+			if left := drive.ListDir(dir); len(left) != 0 {
+				return true, violation(prop, "cancel/file-left-behind", "%s: Merge returned the closed error but left %q in the destination directory", desc, left)
+			}
 			cancelStats.errClosed++
 			if !waitLive(baseline) {
 				return true, violation(prop, "cancel/index-leak", "%s: after a cancelled merge %d native vector indexes are still alive (baseline %d)", desc, fakeLive(), baseline)
@@ -123,6 +129,9 @@ func runCancelCase(c cancelCase) *Violation {
 		cancelStats.completed++
 		if serr != nil {
 			return false, violation(prop, "cancel/success-without-file", "%s: Merge returned nil but there is no file: %v", desc, serr)
+		}
+		if left := drive.ListDir(dir); len(left) != 1 {
+			return false, violation(prop, "cancel/stray-file", "%s: Merge returned nil and the destination directory holds %q", desc, left)
 		}
 		data, _ := os.ReadFile(path)
 		if uint64(len(data)) != size {
@@ -225,6 +234,32 @@ func runCancelCase(c cancelCase) *Violation {
 			}
 		}
 		fakeOnOp(nil)
+	}
+	// a chunk mode the format does not know (reachable through the exported default): whatever
+	// the merge reports, an error never comes with a file, and a channel closed before the call
+	// still means the closed error
+	for _, bad := range []uint32{1027, 70000} {
+		for _, preClosed := range []bool{false, true} {
+			dir := drive.NewDir("c18b")
+			path := filepath.Join(dir, "merged.zap")
+			ch := make(chan struct{})
+			if preClosed {
+				close(ch)
+			}
+			err := drive.Safe(func() error {
+				_, _, e := zap.VerifMergeWithChunkMode(segs, drops, path, bad, ch, nil)
+				return e
+			})
+			left := drive.ListDir(dir)
+			os.RemoveAll(dir)
+			cancelStats.merges++
+			if preClosed && !errors.Is(err, segment.ErrClosed) {
+				return violation(prop, "cancel/preclosed-other-result", "chunk mode %d, channel closed before the call: Merge returned %v, expected the closed error", bad, err)
+			}
+			if err != nil && len(left) != 0 {
+				return violation(prop, "cancel/file-left-behind", "chunk mode %d (closed before the call: %v): Merge returned %v but left %q in the destination directory", bad, preClosed, err, left)
+			}
+		}
 	}
 	// a cancelled merge must leave nothing behind in the process either: a small, unrelated
 	// merge right after all those cancellations must be complete and correct
